@@ -409,7 +409,7 @@ func (srv *Session) handleDescribe(ctx context.Context, reader *buffer.Reader, w
 		return srv.writeColumnDescription(ctx, writer, portal.formats, portal.statement.columns)
 	}
 
-	return srv.extendedError(writer, fmt.Errorf("unknown describe command: %s", string(d[0])))
+	return srv.extendedError(writer, fmt.Errorf("unknown describe command: %q", d[0]))
 }
 
 // https://www.postgresql.org/docs/15/protocol-message-formats.html
